@@ -1,11 +1,285 @@
 import PestModel.Model.StackSpec
-/-! # C11 — placeholder until the refinement proofs land (statements: see DESIGN.md §6 C11). -/
+import PestModel.Lemmas.Stack
+/-!
+# C11 — the backtracking stack is transactional for every history
+
+Property theorems only (helper lemmas live in `PestModel/Lemmas/Stack.lean`).
+`step`/`run` model `pest::Stack` with every Rust panic site an explicit `none`;
+`Naive` is the copy-at-snapshot specification from the property text.
+-/
 namespace PestModel.C11
 open PestModel.Stack
 
-/-- Non-vacuity / smoke: the model computes on a concrete nested history. -/
-theorem smoke :
-    (run (Stk.new : Stk Nat) [.push 1, .snapshot, .pop, .push 2, .restore, .peek]).map (·.2) =
-      some [.unit, .unit, .val (some 1), .unit, .unit, .val (some 1)] := by decide
+variable {α : Type}
+
+/-- The invariant holds initially. -/
+theorem inv_init : StkInv (Stk.new : Stk α) := by
+  simp [StkInv, StkInvL, Stk.new]
+
+/-- No operation panics on a state satisfying the invariant. -/
+theorem step_no_panic (s : Stk α) (op : Op α) (h : StkInv s) : (step s op).isSome := by
+  obtain ⟨cache, popped, lengths⟩ := s
+  cases op with
+  | push x => simp [step]
+  | pop =>
+    simp only [step, pop]
+    cases cache with
+    | nil => simp
+    | cons x c =>
+      cases lengths with
+      | nil => simp
+      | cons lr ls => obtain ⟨len, rem⟩ := lr; simp only []; split <;> simp
+  | peek => simp [step]
+  | snapshot => simp [step]
+  | clearSnapshot =>
+    simp only [step, clearSnapshot]
+    cases lengths with
+    | nil => simp
+    | cons lr ls =>
+      obtain ⟨len, rem⟩ := lr
+      cases ls with
+      | nil =>
+        simp only [StkInv, StkInvL] at h
+        simp only []
+        rw [if_neg (by omega), if_neg (by omega)]; simp
+      | cons pr ls' =>
+        obtain ⟨plen, prem⟩ := pr
+        simp only [StkInv, StkInvL] at h
+        simp only []
+        rw [if_neg (by omega), if_neg (by omega), if_neg (by omega)]; simp
+  | restore =>
+    simp only [step, restore]
+    cases lengths with
+    | nil => simp
+    | cons lr ls =>
+      obtain ⟨len, rem⟩ := lr
+      simp only [StkInv, StkInvL] at h
+      simp only []
+      split
+      · rw [if_neg (by omega)]; simp
+      · simp
+
+/-- The invariant is preserved by every operation. -/
+theorem step_inv (s s' : Stk α) (op : Op α) (o : Out α) (h : StkInv s)
+    (hs : step s op = some (s', o)) : StkInv s' := by
+  obtain ⟨cache, popped, lengths⟩ := s
+  cases op with
+  | push x =>
+    simp only [step, Option.some.injEq, Prod.mk.injEq] at hs
+    obtain ⟨rfl, -⟩ := hs
+    exact StkInvL_push _ _ _ h
+  | pop =>
+    simp only [step, pop] at hs
+    cases cache with
+    | nil =>
+      simp at hs; obtain ⟨rfl, -⟩ := hs; exact h
+    | cons x c =>
+      cases lengths with
+      | nil => simp at hs; obtain ⟨rfl, -⟩ := hs; exact h
+      | cons lr ls =>
+        obtain ⟨len, rem⟩ := lr
+        simp only [StkInv, StkInvL, List.length_cons] at h
+        simp only [] at hs
+        split at hs
+        · simp at hs; obtain ⟨rfl, -⟩ := hs
+          simp only [StkInv, StkInvL, List.length_cons]
+          refine ⟨by omega, by omega, by omega, ?_⟩
+          have e : popped.length + 1 - (len - (rem - 1)) = popped.length - (len - rem) := by omega
+          rw [e]; exact h.2.2.2
+        · simp at hs; obtain ⟨rfl, -⟩ := hs
+          simp only [StkInv, StkInvL]
+          exact ⟨by omega, by omega, by omega, h.2.2.2⟩
+  | peek =>
+    simp only [step, Option.some.injEq, Prod.mk.injEq] at hs
+    obtain ⟨rfl, -⟩ := hs; exact h
+  | snapshot =>
+    simp only [step, Option.some.injEq, Prod.mk.injEq] at hs
+    obtain ⟨rfl, -⟩ := hs
+    simp only [StkInv, StkInvL]
+    refine ⟨by omega, by omega, by omega, ?_⟩
+    simpa [StkInv] using h
+  | clearSnapshot =>
+    simp only [step, clearSnapshot] at hs
+    cases lengths with
+    | nil => simp at hs; obtain ⟨rfl, -⟩ := hs; exact h
+    | cons lr ls =>
+      obtain ⟨len, rem⟩ := lr
+      cases ls with
+      | nil =>
+        simp only [StkInv, StkInvL] at h
+        simp only [] at hs
+        rw [if_neg (by omega), if_neg (by omega)] at hs
+        simp at hs; obtain ⟨rfl, -⟩ := hs
+        simp only [StkInv, StkInvL, List.length_drop]; omega
+      | cons pr ls' =>
+        obtain ⟨plen, prem⟩ := pr
+        simp only [StkInv, StkInvL] at h
+        simp only [] at hs
+        rw [if_neg (by omega), if_neg (by omega), if_neg (by omega)] at hs
+        simp at hs; obtain ⟨rfl, -⟩ := hs
+        simp only [StkInv, StkInvL, List.length_append, List.length_take, List.length_drop]
+        refine ⟨by omega, by omega, by omega, ?_⟩
+        have e : min (prem - min prem rem) (min (len - rem) popped.length) + (popped.length - (len - rem)) - (plen - min prem rem) = popped.length - (len - rem) - (plen - prem) := by omega
+        rw [e]; exact h.2.2.2.2.2.2
+  | restore =>
+    simp only [step, restore] at hs
+    cases lengths with
+    | nil => simp at hs; obtain ⟨rfl, -⟩ := hs; simpa [StkInv, StkInvL] using h
+    | cons lr ls =>
+      obtain ⟨len, rem⟩ := lr
+      simp only [StkInv, StkInvL] at h
+      simp only [] at hs
+      split at hs
+      · rw [if_neg (by omega)] at hs
+        simp at hs; obtain ⟨rfl, -⟩ := hs
+        simp only [StkInv]
+        have e : ((List.take (len - rem) popped).reverse ++
+          if rem < cache.length then List.drop (cache.length - rem) cache else cache).length = len := by
+          split <;> simp <;> omega
+        rw [e, List.length_drop]; exact h.2.2.2
+      · simp at hs; obtain ⟨rfl, -⟩ := hs
+        simp only [StkInv]
+        have e : (if rem < cache.length then List.drop (cache.length - rem) cache else cache).length = len := by
+          split
+          · simp; omega
+          · omega
+        have e2 : popped.length - (len - rem) = popped.length := by omega
+        rw [e, ← e2]; exact h.2.2.2
+
+/-- One step of the implementation model is one step of the naive model, through `abs`. -/
+theorem step_refines (s s' : Stk α) (op : Op α) (o : Out α) (h : StkInv s)
+    (hs : step s op = some (s', o)) : Naive.step (abs s) op = (abs s', o) := by
+  obtain ⟨cache, popped, lengths⟩ := s
+  cases op with
+  | push x =>
+    simp only [step, Option.some.injEq, Prod.mk.injEq] at hs
+    obtain ⟨rfl, rfl⟩ := hs
+    simp only [Naive.step, abs, Prod.mk.injEq, and_true, Naive.mk.injEq, true_and]
+    apply absSaved_congr_cur
+    rintro len rem l rfl
+    simp only [StkInv, StkInvL] at h
+    have e : (x :: cache).length - rem = (cache.length - rem) + 1 := by simp; omega
+    rw [e]; rfl
+  | pop =>
+    simp only [step, pop] at hs
+    cases cache with
+    | nil =>
+      simp at hs; obtain ⟨rfl, rfl⟩ := hs; simp [Naive.step, abs]
+    | cons x c =>
+      cases lengths with
+      | nil => simp at hs; obtain ⟨rfl, rfl⟩ := hs; simp [Naive.step, abs, absSaved]
+      | cons lr ls =>
+        obtain ⟨len, rem⟩ := lr
+        simp only [StkInv, StkInvL, List.length_cons] at h
+        simp only [] at hs
+        split at hs
+        · simp at hs; obtain ⟨rfl, rfl⟩ := hs
+          simp only [Naive.step, abs, List.tail_cons, List.head?_cons, Prod.mk.injEq, and_true,
+            Naive.mk.injEq, true_and, absSaved]
+          have e1 : len - (rem - 1) = (len - rem) + 1 := by omega
+          have e2 : (x :: c).length - rem = 0 := by simp; omega
+          have e3 : c.length - (rem - 1) = 0 := by omega
+          rw [e1, e2, e3]
+          simp
+        · simp at hs; obtain ⟨rfl, rfl⟩ := hs
+          simp only [Naive.step, abs, List.tail_cons, List.head?_cons, Prod.mk.injEq, and_true,
+            Naive.mk.injEq, true_and]
+          apply absSaved_congr_cur
+          rintro len rem l h'
+          simp only [List.cons.injEq, Prod.mk.injEq] at h'
+          obtain ⟨⟨rfl, rfl⟩, rfl⟩ := h'
+          have e : (x :: c).length - rem = (c.length - rem) + 1 := by simp; omega
+          rw [e]; rfl
+  | peek =>
+    simp only [step, Option.some.injEq, Prod.mk.injEq] at hs
+    obtain ⟨rfl, rfl⟩ := hs; rfl
+  | snapshot =>
+    simp only [step, Option.some.injEq, Prod.mk.injEq] at hs
+    obtain ⟨rfl, rfl⟩ := hs
+    simp [Naive.step, abs, absSaved]
+  | clearSnapshot =>
+    simp only [step, clearSnapshot] at hs
+    cases lengths with
+    | nil => simp at hs; obtain ⟨rfl, rfl⟩ := hs; simp [Naive.step, abs, absSaved]
+    | cons lr ls =>
+      obtain ⟨len, rem⟩ := lr
+      cases ls with
+      | nil =>
+        simp only [StkInv, StkInvL] at h
+        simp only [] at hs
+        rw [if_neg (by omega), if_neg (by omega)] at hs
+        simp at hs; obtain ⟨rfl, rfl⟩ := hs
+        simp [Naive.step, abs, absSaved]
+      | cons pr ls' =>
+        obtain ⟨plen, prem⟩ := pr
+        simp only [StkInv, StkInvL] at h
+        simp only [] at hs
+        rw [if_neg (by omega), if_neg (by omega), if_neg (by omega)] at hs
+        simp only [Option.map_some, Option.some.injEq, Prod.mk.injEq] at hs
+        obtain ⟨rfl, rfl⟩ := hs
+        simp only [Naive.step, abs, absSaved, List.tail_cons, Prod.mk.injEq, and_true,
+          Naive.mk.injEq, true_and]
+        have hk : (popped.take (len - rem)).length = len - rem := by simp; omega
+        obtain ⟨c1, c2⟩ := clear_core cache (popped.take (len - rem)) (popped.drop (len - rem))
+          len rem plen prem hk (by omega) (by omega) (by omega) (by omega)
+        rw [c1, c2]
+  | restore =>
+    simp only [step, restore] at hs
+    cases lengths with
+    | nil => simp at hs; obtain ⟨rfl, rfl⟩ := hs; simp [Naive.step, abs, absSaved]
+    | cons lr ls =>
+      obtain ⟨len, rem⟩ := lr
+      simp only [StkInv, StkInvL] at h
+      simp only [] at hs
+      have ec : (if rem < cache.length then List.drop (cache.length - rem) cache else cache)
+          = cache.drop (cache.length - rem) := by
+        split
+        · rfl
+        · have : cache.length - rem = 0 := by omega
+          rw [this]; rfl
+      rw [ec] at hs
+      split at hs
+      · rw [if_neg (by omega)] at hs
+        simp at hs; obtain ⟨rfl, rfl⟩ := hs
+        simp [Naive.step, abs, absSaved]
+      · simp at hs; obtain ⟨rfl, rfl⟩ := hs
+        have : len - rem = 0 := by omega
+        simp [Naive.step, abs, absSaved, this]
+
+/-- Generalised form of `run_refines` from any state satisfying the invariant. -/
+theorem run_refines_from (s : Stk α) (ops : List (Op α)) (h : StkInv s) :
+    ∃ s', run s ops = some (s', (Naive.run (abs s) ops).2) ∧ StkInv s' ∧
+      abs s' = (Naive.run (abs s) ops).1 := by
+  induction ops generalizing s with
+  | nil => exact ⟨s, rfl, h, rfl⟩
+  | cons op ops ih =>
+    have hp := step_no_panic s op h
+    obtain ⟨⟨s1, o⟩, hs⟩ := Option.isSome_iff_exists.mp hp
+    have hi := step_inv s s1 op o h hs
+    have hr := step_refines s s1 op o h hs
+    obtain ⟨s2, h1, h2, h3⟩ := ih s1 hi
+    refine ⟨s2, ?_, h2, ?_⟩
+    · simp only [run, hs, h1, Naive.run, hr]
+    · simp only [Naive.run, hr]; exact h3
+
+/-- **Main theorem.** For every history from the empty stack: no operation panics, every
+`pop`/`peek` returns what the naive model returns, and the contents afterwards are the naive
+model's contents.  (Every prefix of a history is a history, so this is "after each operation".) -/
+theorem run_refines (ops : List (Op α)) :
+    ∃ s', run Stk.new ops = some (s', (Naive.run Naive.new ops).2) ∧
+      s'.cache = (Naive.run Naive.new ops).1.cur := by
+  have e : abs (Stk.new : Stk α) = Naive.new := rfl
+  obtain ⟨s', h1, -, h3⟩ := run_refines_from (Stk.new : Stk α) ops inv_init
+  rw [e] at h1 h3
+  exact ⟨s', h1, by rw [← h3]; rfl⟩
+
+/-- Non-vacuity: a reachable three-deep state with pops below the snapshot line and re-pushes
+satisfies the invariant and is not the trivial state. -/
+example :
+    let ops : List (Op Nat) := [.push 1, .push 2, .snapshot, .pop, .snapshot, .pop, .push 3,
+      .snapshot, .pop, .push 4, .push 5]
+    ∃ s os, run Stk.new ops = some (s, os) ∧ s.lengths.length = 3 ∧ s.popped ≠ [] ∧ StkInv s := by
+  refine ⟨_, _, rfl, rfl, by decide, ?_⟩
+  simp [StkInv, StkInvL, Stk.new]
 
 end PestModel.C11
